@@ -535,6 +535,12 @@ func runC02(w *mon.W) {
 			}
 			parent := randCase(r, randString(r, oracle.IUPACCodes, plen), []float64{0, 0.5, 1}[r.Intn(3)])
 			x := randLoc(r, 1+r.Intn(4), plen)
+			if r.Intn(4) == 0 && !strings.Contains(x.String(), "complement") {
+				// spans, single positions and joins read the same way on a protein parent (GenPept records: Region,
+				// Site, mat_peptide); only complement needs nucleotides
+				parent = randCase(r, randString(r, "ACDEFGHIKLMNPQRSTVWYXBZJOU", plen), []float64{0, 1}[r.Intn(2)])
+				w.Add("expressions_on_protein_parents", 1)
+			}
 			cid := fmt.Sprintf("%s/%d", id, k)
 			c02Judge(w, cid, x, parent, (start+k)%(nRand/nParse+1) == 0)
 			w.Max("max_operators", int64(x.Operators()))
